@@ -217,6 +217,8 @@ def gen_cases(tier, want_mirror=True):
                 for pol in (1, -1):
                     yield dict(fam="mux", inputs=[list(x) for x in inputs], pal=pal, rs_list=(k == 3), pol=pol, srs=0.0, n=k)
                 yield dict(fam="mux", inputs=[list(x) for x in inputs], pal=pal, rs_list=False, pol=1, srs=0.0, n=k, ig_table=True)
+                for pol in ((1, -1) if k == 2 else (1,)):  # per-input resistances written with a negative sign are magnitudes (constructor rule for scalars)
+                    yield dict(fam="mux", inputs=[list(x) for x in inputs], pal=pal, rs_list="neg", pol=pol, srs=0.0, n=k)
                 if k == 2:
                     yield dict(fam="mux", inputs=[list(x) for x in inputs], pal=pal, rs_list=False, pol=1, srs=0.0, n=k, remux=True)
                     yield dict(fam="mux", inputs=[list(x) for x in inputs], pal=pal, rs_list=False, pol=1, srs=0.0, n=k, remux=True, below="none")
@@ -299,6 +301,7 @@ def main(tier):
              "(full: 20 interior + 6 leaf letters, mid: 10+3, deep: 4+2; at most one PMux), x polarity x source rs in {0,0.37}, "
              "plus every tree n<=3 over a degenerate alphabet (zero resistances / drops / currents / powers, efficiency exactly 1, a regulator exactly at its drop-out boundary), amps-level loads beside micro-amp regulator chains of depth 2..6, two-source forests and 2-/3-input PMux systems (every input option of C05, both polarities); palette(s) by VERIF_SEED (quick) or all three (thorough). A case is non-trivial when some row "
              "took a non-default law branch (off-grid table lookup, clamp, drop-out, no-load, rectified negative input, fan-out>=2). "
+             "Mux systems also with the per-input resistance list written with negative signs (magnitudes). "
              "states = distinct systems built on the real code, transitions = public API calls (add_source/add_comp/solve) executed, "
              "traces_validated = solved tables whose every row was compared with the reference law.",
         assumptions=["numeric values limited to the palettes", "trees up to the stated node bound",
